@@ -294,6 +294,8 @@ class GridWeighted(Grid):
             self._weights = [float(val) for val in value]
         else:
             raise TypeError("The input should be a list, tuple or a single int, float value")
+        # Weighted grid points must be regenerated with the new weights
+        self._cache['gridptsw'] = []
 
     def reset(self):
         """ Resets the grid. """
